@@ -44,6 +44,45 @@ fn emit_vcmp(emit: &mut dyn FnMut(Op), w: &str, v: &str, api: bool) {
     }
 }
 
+
+/// Two-bound patterns whose LOWER bound extends the UPPER one by zeros, separators or a negative
+/// modifier (`p>=1.0alpha1<1.0`, `p>=1.0<=1`): the two bounds are then "out of order" for any
+/// comparison that is not the zero-padded one, although the range is perfectly satisfiable.  Also
+/// zero / empty bounds against versions that sort BELOW zero (`p>=0` vs `p-0rc1`, `p-alpha1`).
+fn bound_extension_family(emit: &mut dyn FnMut(Op)) {
+    let stems = ["1", "1.0", "2.5", "0", "", "1a", "3nb2", "10"];
+    let exts = ["", ".0", ".0.0", "_", "pl", "alpha1", "beta", "rc1", "pre2", ".0alpha", "nb2", ".0nb1", "."];
+    let probes = ["", ".0", "alpha1", "beta2", "rc1", "rc2", "pre1", ".0.0", "nb1", "nb3", ".1", "a", "alpha0"];
+    for st in stems {
+        for x in exts {
+            for y in exts {
+                let (lo, hi) = (format!("{}{}", st, x), format!("{}{}", st, y));
+                for (o1, o2) in [(">=", "<"), (">=", "<="), (">", "<"), (">", "<=")] {
+                    let pat = format!("p{}{}{}{}", o1, lo, o2, hi);
+                    emit(Op::s("dewey.new", &[&pat]));
+                    for pr in probes {
+                        let name = format!("p-{}{}", st, pr);
+                        emit(Op::s("dewey.match", &[&pat, &name]));
+                        emit(Op::s("pattern.match", &[&pat, &name]));
+                    }
+                }
+            }
+        }
+    }
+    for zero in ["", "0", "0.0", "0.", "_", "pl", "0pl", "00", ".", "0nb0", "nb0"] {
+        for op in [">=", ">", "<=", "<"] {
+            for v in ["0rc1", "alpha1", "rc1", "0alpha", "pre", "0.0beta", "beta", "0", "", "0.0", "0pl", "pl", "_", "0nb1", "nb1", "a", "0a", "1"] {
+                let pat = format!("p{}{}", op, zero);
+                let name = format!("p-{}", v);
+                emit(Op::s("dewey.match", &[&pat, &name]));
+                emit(Op::s("pattern.match", &[&pat, &name]));
+                let pat2 = format!("p>={}<2", zero);
+                emit(Op::s("pattern.match", &[&pat2, &name]));
+            }
+        }
+    }
+}
+
 fn gen_c01(tier: &str, rng: &mut Rng, emit: &mut dyn FnMut(Op)) {
     let thorough = tier == "thorough";
     let toks = all_toks();
@@ -175,6 +214,7 @@ fn gen_c01(tier: &str, rng: &mut Rng, emit: &mut dyn FnMut(Op)) {
             }
         }
     }
+    bound_extension_family(emit);
     let pads = ["", ".0", ".", "_", "pl", ".0.0", "pl.", "0"];
     for base in ["1", "1.0", "2.5", "1a", "1.0rc1", "3nb2", "10.20"] {
         for x in pads {
@@ -202,6 +242,16 @@ fn gen_c03(tier: &str, rng: &mut Rng, emit: &mut dyn FnMut(Op)) {
     ];
     for (x, y, z) in fixed {
         emit(Op::s("api.laws", &[x, y, z]));
+    }
+    // bounds that are zero-padded / modifier extensions of each other, probed around them
+    for st in ["1", "1.0", "0", "2.5"] {
+        for x in ["", ".0", ".0.0", "_", "pl", "alpha1", "rc1", "nb2", ".0nb1"] {
+            for y in ["", ".0", "alpha1", "beta2", "nb1"] {
+                for zz in ["", ".0", "beta2", "rc2", "nb1", "alpha0", ".1"] {
+                    emit(Op::s("api.laws", &[&format!("{}{}", st, x), &format!("{}{}", st, y), &format!("{}{}", st, zz)]));
+                }
+            }
+        }
     }
     for _ in 0..(if thorough { 40000 } else { 1500 }) {
         let x = rand_version(rng, &toks, 4);
@@ -273,6 +323,7 @@ fn gen_c02(tier: &str, rng: &mut Rng, emit: &mut dyn FnMut(Op)) {
         emit(Op::s("dewey.new", &[p]));
         emit(Op::s("pattern.new", &[p]));
     }
+    bound_extension_family(emit);
     // names: base variants x versions
     let variant = |base: &str, k: usize| -> String {
         match k {
@@ -339,6 +390,16 @@ fn gen_c18(tier: &str, rng: &mut Rng, emit: &mut dyn FnMut(Op)) {
         emit(Op::s("pkgname.new", &[n]));
         emit(Op::s("summary.pkgsplit", &[n]));
         emit(Op::s("pkgname.dewey", &[n]));
+    }
+    // names longer than 16-bit offsets can address, the last '-' on either side of 65535/65536
+    for k in [65534usize, 65535, 65536, 65537, 70000] {
+        for tail in ["-1.0nb3", "-1.0", "-", "nb2"] {
+            let n = format!("{}{}", "a".repeat(k), tail);
+            emit(Op::s("pkgname.new", &[&n]));
+            emit(Op::s("summary.pkgsplit", &[&n]));
+            let n2 = format!("p-{}{}", "1".repeat(3) + &".0".repeat(k / 2), "nb7");
+            emit(Op::s("pkgname.new", &[&n2]));
+        }
     }
     for (p, n) in [("foo<2", "foo-bar-1.0"), ("foo>=0", "foo-bar-1.0"), ("foo-bar>=0", "foo-bar-1.0"), ("pkg>=1.0nb3", "pkg-1.0nb9-0.5nb1"),
         ("pkg-1.0nb9>=0", "pkg-1.0nb9-0.5nb1"), ("php56>=5", "php56-mysql-5.6"), ("a>=0", "a--1")] {
@@ -817,6 +878,49 @@ fn gen_c05(tier: &str, rng: &mut Rng, emit: &mut dyn FnMut(Op)) {
             }
         }
     }
+    // several '*' with literal pieces between them: every pattern over {a, b, *} of length <= 5
+    // (no "**") against every name over {a, b} of length <= 4 (thorough: 6 / 5) — the pieces of a
+    // name may not overlap (`a*b*b` does not match `ab`)
+    {
+        let (pl, nl) = if thorough { (6, 5) } else { (5, 4) };
+        let mut ps: Vec<String> = vec![String::new()];
+        let mut cur = vec![String::new()];
+        for _ in 0..pl {
+            let mut next = vec![];
+            for q in &cur {
+                for c in ["a", "b", "*"] {
+                    if c == "*" && q.ends_with('*') {
+                        continue;
+                    }
+                    next.push(format!("{}{}", q, c));
+                }
+            }
+            ps.extend(next.iter().cloned());
+            cur = next;
+        }
+        let mut ns: Vec<String> = vec![String::new()];
+        let mut cur = vec![String::new()];
+        for _ in 0..nl {
+            let mut next = vec![];
+            for q in &cur {
+                for c in ["a", "b"] {
+                    next.push(format!("{}{}", q, c));
+                }
+            }
+            ns.extend(next.iter().cloned());
+            cur = next;
+        }
+        for q in ps.iter().filter(|q| q.matches('*').count() >= 2) {
+            for n in &ns {
+                emit(Op::s("pattern.match", &[q, n]));
+            }
+        }
+        for (q, n) in [("*-1.*.1", "foo-1.1"), ("lib*-dev*-dev", "libfoo-dev"), ("x*abc*c", "xabc"), ("*nb*nb1", "foo-1.0nb1"),
+            ("*-1.*.1", "foo-1.1.1"), ("lib*-dev*-dev", "libfoo-dev-dev"), ("*.*.*", "1.0"), ("*.*.*", "1.0.0"), ("*a*a*a", "aa")] {
+            emit(Op::s("pattern.match", &[q, n]));
+            emit(Op::s("glob.match", &[q, n]));
+        }
+    }
     // plain patterns
     for p in ["foo-1.0", "a", "", "ab", "é", "a-b", "-", "A1"] {
         emit(Op::s("pattern.new", &[p]));
@@ -863,7 +967,11 @@ fn gen_c06(tier: &str, rng: &mut Rng, emit: &mut dyn FnMut(Op)) {
         "00000000000000000002", "000000000000000000010", "1.000000000000000000007", "1.7",
         "99999999999999999999", "9223372036854775807", "1.0nb00000000000000000003",
         // file-name like endings are part of the version text
-        "1.0.tgz", "1.0.tar.gz", "1.0 ", "1.0\n"];
+        "1.0.tgz", "1.0.tar.gz", "1.0 ", "1.0\n",
+        // every '.' is a component of its own: empty fields between, before and after dots
+        "1..2", ".5", "1.", "1..", "..1", "1.0.3", "1.0.4nb1", "1...", ".", "1._2", "1.0.2",
+        // very long names (offsets beyond 16 bits)
+        ];
     let mk = |rng: &mut Rng| -> String {
         match rng.below(12) {
             0 => rng.pick(&bases).to_string(),
